@@ -12,6 +12,7 @@ import Rpcx.Driver.Server
 import Rpcx.Driver.Ingress
 import Rpcx.Driver.Pipe
 import Rpcx.Driver.Gateway
+import Rpcx.Driver.Shutdown
 /-
   Line-protocol driver: one operation per input line, one canonical output line per
   operation.  Runs the executable definitions of the model (generated and hand-written);
@@ -39,6 +40,8 @@ def step (line : String) : String :=
   | "ing" :: ws => cmdIng ws
   | "pipe" :: ws => cmdPipe ws
   | "q" :: ws => cmdQ ws
+  | "sd" :: ws => cmdSd ws
+  | "sdo" :: ws => cmdSdo ws
   | _ => "bad-op"
 
 partial def loop (hin : IO.FS.Stream) (hout : IO.FS.Stream) : IO Unit := do
